@@ -8,7 +8,7 @@ use crate::gen;
 use crate::run::{Outcome, RunCfg, Scenario};
 use crate::spec::PropertySpec;
 use serde_json::json;
-use servlin::log::internal::{ClearGlobalLoggerOnDrop, LogEvent, Tag, TagValue};
+use servlin::log::internal::{ClearGlobalLoggerOnDrop, LogEvent, Tag};
 use servlin::log::{self, Level};
 use servlin::{ContentType, Error, HeaderList, Request, RequestBody, Response};
 use std::collections::HashMap;
@@ -666,7 +666,7 @@ pub fn spec() -> PropertySpec {
         id: "C18",
         level: "exploration",
         rule: "1-8 REAL OS threads, each executing one logging-API operation only when the seeded scheduler hands it the baton (parked-and-released: the choice of who runs is the tape's, the threads are real because thread-local tags are the point). Programs of 4-43 operations over {add thread tag, clear, error/info/debug with 0-6 tags from a pool that includes the prioritised names, log_request_and_response with Ok / Err (with/without response, tags, message) and an optional inner log call, set_global_logger with a fresh channel, drop the guard, drop a receiver (logger stopped)}. Oracle: sequential reference model executed in baton order (global state None/Default/Some(k), per-thread tag lists, per-logger expected queues); after every operation all receivers are drained and compared: exactly one event per logging call in the right logger, tag order = call tags then the calling thread's tags, stably ordered by the fixed priority, none of another thread's tags, level and code per the wrapper rules, returned response, refusal of a second install, stopped logger => Err not panic. fd 1 is replaced by a pipe for the duration of every run and the stdout default's lines are compared as a multiset. distinct = hash of the operation trace; non-trivial = at least 2 events checked.",
-        scenarios: vec![Scenario { name: "c18.threads", property: "C18", func: scenario, runs_quick: 20_000, runs_thorough: 600_000, doc: "baton-scheduled caller threads" }],
+        scenarios: vec![Scenario { name: "c18.threads", property: "C18", func: scenario, runs_quick: 100_000, runs_thorough: 2_500_000, doc: "baton-scheduled caller threads" }],
         required_probes: vec!["probe.events_checked", "probe.multi_thread", "probe.stdout_default_observed", "fault.logger_receiver_dropped"],
         components: json!({
             "real": ["/repo/src/log/** (unmodified)", "std::sync::Mutex, std::sync::mpsc, thread_local! (cannot be substituted)", "OS threads (parked and released one at a time)"],
